@@ -239,4 +239,54 @@ theorem error_nonempty (ι : ρ →+* 𝕜) (hι : ∀ x, star (ι x) = ι x) (h
     exact this
 
 end err
+/-! ### both branches -/
+
+theorem spectrum_disjoint (dsvd : Mat 𝕜 → Mat 𝕜 × List ρ × Mat 𝕜) (A : Mat 𝕜) (q0 q1 : List Int)
+    (he : intersect1d q0 q1 = []) : spectrum dsvd A q0 q1 = [] := by
+  rw [spectrum_eq, blocks, he]; rfl
+
+theorem triple_disjoint (ι : ρ →+* 𝕜) (H : QRInput A q0 q1) (he : intersect1d q0 q1 = []) {i j : Nat}
+    (hi : i < A.m) (hj : j < A.n) :
+    tripleF ι (e0 A.m) ([0] : List ρ) (Mat.zero 1 A.n) i j = A.f i j := by
+  rw [all_zero_of_disjoint H he i j hi hj]
+  unfold tripleF
+  apply sum_eq_zero
+  intro t _
+  rw [Mat.zero_f, mul_zero]
+
+/-- if all discarded singular values vanish (e.g. nothing is discarded) the returned factors reproduce `A` -/
+theorem reconstruct' (ι : ρ →+* 𝕜) (hshape : SvdShape dsvd A q0 q1) (hprod : SvdProduct ι dsvd A q0 q1)
+    (H : QRInput A q0 q1) {u v : Mat 𝕜} {s : List ρ} {q : List Int}
+    (hrun : splitMatrixSvd dsvd dnorm dargsort A q0 q1 tol = .ok (u, s, v, q))
+    (hdisc : ∀ p, p < (spectrum dsvd A q0 q1).length →
+      p ∉ retainedBondIndices dnorm dargsort (spectrum dsvd A q0 q1) tol → (spectrum dsvd A q0 q1).getD p 0 = 0)
+    {i j : Nat} (hi : i < A.m) (hj : j < A.n) : tripleF ι u s v i j = A.f i j := by
+  rcases split_run_cases dnorm dargsort tol hshape H hrun with ⟨he, rfl, rfl, rfl, rfl⟩ | ⟨-, rfl, rfl, rfl, rfl⟩
+  · exact triple_disjoint ι H he hi hj
+  · exact reconstruct_nonempty dnorm dargsort tol ι hshape hprod H hdisc hi hj
+
+section err2
+variable [StarRing 𝕜]
+
+/-- truncation error identity, both branches -/
+theorem error_identity' (ι : ρ →+* 𝕜) (hι : ∀ x, star (ι x) = ι x) (hshape : SvdShape dsvd A q0 q1)
+    (hprod : SvdProduct ι dsvd A q0 q1) (hisoU : SvdIsoU dsvd A q0 q1) (hisoV : SvdIsoV dsvd A q0 q1)
+    (H : QRInput A q0 q1) {u v : Mat 𝕜} {s : List ρ} {q : List Int}
+    (hrun : splitMatrixSvd dsvd dnorm dargsort A q0 q1 tol = .ok (u, s, v, q)) :
+    ∑ i ∈ range A.m, ∑ j ∈ range A.n,
+        star (A.f i j - tripleF ι u s v i j) * (A.f i j - tripleF ι u s v i j) =
+      ∑ p ∈ range (spectrum dsvd A q0 q1).length,
+        if p ∈ retainedBondIndices dnorm dargsort (spectrum dsvd A q0 q1) tol then 0
+        else ι ((spectrum dsvd A q0 q1).getD p 0) * ι ((spectrum dsvd A q0 q1).getD p 0) := by
+  rcases split_run_cases dnorm dargsort tol hshape H hrun with ⟨he, rfl, rfl, rfl, rfl⟩ | ⟨-, rfl, rfl, rfl, rfl⟩
+  · rw [spectrum_disjoint dsvd A q0 q1 he]
+    simp only [List.length_nil, range_zero, sum_empty]
+    apply sum_eq_zero
+    intro i hi
+    apply sum_eq_zero
+    intro j hj
+    rw [triple_disjoint ι H he (mem_range.1 hi) (mem_range.1 hj), sub_self, mul_zero]
+  · exact error_nonempty dnorm dargsort tol ι hι hshape hprod hisoU hisoV H
+
+end err2
 end Ptn.BondOps
